@@ -514,6 +514,11 @@ def main(ctx) -> int:
                 break
             if case.get('kind') != 'container':
                 widen(ctx, case, budget=ctx.scale(quick=6, thorough=40))
+        # kernels regenerated from the source by the symbolic translator (translator validation; the bridge to the model is
+        # proved in Lean, AeicProofs/Lemmas/KernelBridge2.lean)
+        from harness import kernels
+
+        kernels.check_sym(ctx, files={'trajectories/builders/legacy.py'})
     finally:
         Config.reset()
     return ctx.finish(RULE, TRUSTED, ASSUME)
